@@ -602,6 +602,45 @@ func descOf(x: interface{}) => string {
 	return d.Describe() + e.(Describer).Describe()
 }
 
+// #wa:generic: one name, alternatives chosen by the argument types
+#wa:generic joinInts joinNode
+func joinAny(a: string, b: string) => string {
+	return a + "+" + b
+}
+
+func joinInts(a: string, b: []int) => string {
+	return a + "#" + itoa(len(b))
+}
+
+func joinNode(a: string, n: *Node) => string {
+	if n == nil {
+		return a + "@nil"
+	}
+	return a + "@" + n.name
+}
+
+// #wa:operator: + on a struct value with reference fields
+#wa:operator + Tag_add
+type Tag :struct {
+	s: string
+	v: []int
+}
+
+func Tag_add(x, y: Tag) => Tag {
+	return Tag{s: x.s + y.s, v: append(append([]int{}, x.v...), y.v...)}
+}
+
+#wa:generic AppendInt
+func Tag.Append(t: string) => *Tag {
+	this.s += t
+	return this
+}
+
+func Tag.AppendInt(n: int) => *Tag {
+	this.v = append(this.v, n)
+	return this
+}
+
 func catAny(xs: ...interface{}) => string {
 	r := ""
 	for _, x := range xs {
@@ -1155,6 +1194,8 @@ func (g *gen) formOps4() {
 	g.add("constant index of array-valued call results", fmt.Sprintf("st := mkStore(%s, %s, b)\nx := st.Snapshot()[0]\ny := mkArr(x, %s)[1]\nz := mkStore(y, x, c).names[1]\nn := st.Nodes()[0]\nfor i := 0; i < 1+c%%3; i++ {\nx = st.Snapshot()[1] + itoa(i)\nn = st.Nodes()[0]\n}\nr := x + y + z + st.names[0]\n"+clip("r")+"%s = r\nreturn hStr(r) + hN(n) + hN(st.nodes[0])", str("b"), str("c"), str("c"), str("a")))
 	g.add("single-value assertion from one interface type to another, repeated", fmt.Sprintf("rs := &Res{name: %s, data: %s}\nx: interface{} = rs\nr := \"\"\nfor i := 0; i < 1+c%%3; i++ {\nr += textOf(x, i)\ncl := x.(Closer)\nr += cl.Text(b)\n}\nbs := &Base{note: %s, id: b}\nvar y: interface{} = bs\nr += descOf(y) + descOf(y)\nfresh := %s + \"f\"\nr += rs.name + bs.note + fresh\n"+clip("r")+"%s = r\nreturn hStr(r) + hSI(rs.data)", str("b"), si("c"), str("c"), str("b"), str("a")))
 	g.add("method value bound to an interface receiver, called", fmt.Sprintf("d: Describer = &Base{note: %s, id: c}\nf := d.Describe\nr := f()\nfor i := 0; i < 1+b%%3; i++ {\nr += f()\n}\ncl: Closer = &Res{name: %s, data: %s}\ng := cl.Text\nh := cl.Rows\nr += g(b)\nrows := h()\nunused := d.Describe\n_ = unused\n"+clip("r")+"%s = r\n%s = rows\nreturn hStr(r) + hSI(rows)", str("b"), str("c"), si("c"), str("a"), si("a")))
+	g.add("generic function alternatives chosen by argument type", fmt.Sprintf("x := %s\nr := joinAny(x, %s) + joinAny(x, %s) + joinAny(x, &Node{name: itoa(c)})\nnn: *Node\nr += joinAny(r, nn)\n"+clip("r")+"%s = r\nreturn hStr(r)", str("b"), str("c"), si("c"), str("a")))
+	g.add("operator on struct values with reference fields, chained generic methods", fmt.Sprintf("p := Tag{s: %s, v: %s}\nq := Tag{s: itoa(b), v: []int{c}}\nsum := p + q\nsum2 := sum + p\nt := &Tag{s: \"t\"}\nt.Append(sum.s).Append(b).Append(\"x\").Append(c)\nr := sum2.s + t.s\nw := append(sum2.v, t.v...)\nif len(w) > 40 {\nw = w[:4]\n}\n"+clip("r")+"%s = r\n%s = w\nreturn hStr(r) + hSI(w)", str("b"), si("c"), str("a"), si("a")))
 	g.add("string to runes and back", fmt.Sprintf("rs := []rune(%s + \"世a\")\nfor i := range rs {\nif i%%2 == c%%2 {\nrs[i] = rune('b' + (b+i)%%20)\n}\n}\nu := string(rs[1:]) + string(rs[0]) + string(rune(0x4e16+b%%8))\n"+clip("u")+"%s = u\nreturn hStr(u) + i64(len(rs))", str("b"), str("a")))
 	g.add("local array of strings copied by value", fmt.Sprintf("arr: [3]string\narr[b%%3] = %s\narr[c%%3] = %s + \"k\"\nt := arr\nt[0] = t[1] + t[2]\nr := arr[0] + \"|\" + t[0]\n"+clip("r")+"%s = r\nreturn hStr(r)", str("b"), str("c"), str("a")))
 	g.add("slice of slices of strings, inner append", fmt.Sprintf("rows := [][]string{}\nfor i := 0; i < 1+c%%3; i++ {\nrows = append(rows, []string{%s})\nrows[i] = append(rows[i], itoa(i+b))\nrows[0] = append(rows[0], rows[i][0])\n}\nr := \"\"\nfor _, row := range rows {\nfor _, x := range row {\nif len(r) < 120 {\nr += x\n}\n}\n}\n%s = r\nreturn hStr(r) + i64(len(rows[0]))", str("b"), str("a")))
